@@ -28,6 +28,8 @@ From RV Require Import Proofs.PixelConvolve.
 From RV Require Import Proofs.PixelChain.
 From RV Require Import Proofs.PixelIdentity2.
 From RV Require Import Proofs.PixelChainId.
+From RV Require Import Gen.FilterFuncs.
+From Coq Require Import String.
 From Flocq Require Import Core BinarySingleNaN.
 Local Open Scope Z_scope.
 
@@ -272,6 +274,22 @@ Theorem C16_layer_within_max : forall bbox maxb ib, filter_layer bbox maxb = Som
   ix maxb <= ix ib /\ i_right ib <= i_right maxb /\ iy maxb <= iy ib /\ i_bottom ib <= i_bottom maxb.
 Proof. exact layer_within_max. Qed.
 Print Assumptions C16_layer_within_max.
+
+(* ================================================================== CSS filter FUNCTIONS are converted per element (final pass) *)
+(* usvg parser/filter.rs convert(), source-derived table Gen/FilterFuncs.v: the only access to the conversion cache in the whole
+   body is the id generator (no lookup in / insert into cache.filters on the function path); every arm of `match func` except Url is
+   handled by the closure create_base_filter_func and nothing else (no continue / break / return / cache access inside an arm);
+   the loop body is exactly `let func = match func {..}; match func {..}` with the parse-error return as its only early exit;
+   and the closure derives the region from the CALLER's object bounding box (checked_bbox_transform(rect, object_bbox)) and pushes a
+   fresh Filter carrying that rect: two elements with equal function text and different boxes never share a region *)
+Theorem C16_function_filters_not_shared :
+  fn_cache_accesses = ["cache.gen_filter_id"]%string /\
+  forallb (fun ac => orb (String.eqb (fst ac) "Url") (String.eqb (snd ac) "create_base_filter_func")) fn_arm_callees = true /\
+  map fst fn_arm_callees = ["Blur"; "DropShadow"; "Brightness"; "Contrast"; "Grayscale"; "HueRotate"; "Invert"; "Opacity"; "Sepia"; "Saturate"; "Url"]%string /\
+  fn_loop_statements = 2%nat /\ fn_loop_exits = ["return Ok(Vec::new())"]%string /\
+  fn_region_from_own_bbox = true.
+Proof. repeat split; reflexivity. Qed.
+Print Assumptions C16_function_filters_not_shared.
 
 (* ================================================================== non-vacuity *)
 Example C16_ex_mul : mul_alpha 200 128 = 100 /\ demul_alpha 100 128 = 199 /\ demul_alpha 0 0 = 0.
